@@ -537,6 +537,51 @@ def resolveLimit (explicit : Option Nat) (sys : Option Int) : Option Nat :=
   | some n => some n
   | none => sys.map Int.toNat
 
+/-! ## the exception's display name and sessions of several captures
+
+What the interpreter hands over about the exception's class: `__module__` (`none` when it is not a str) and
+`__qualname__`.  boltons computes the display name in two places (ExceptionInfo.from_exc_info and
+tbutils.format_exception_only, which print_exception uses); both read the two attributes afresh on every call. -/
+
+structure ExcType where
+  modname : Option Str
+  qualname : Str
+deriving DecidableEq, Repr
+
+/-- the modules whose classes are printed without prefix: `("__main__", "builtins")` -/
+def plainMods : List Str := ["__main__".toList, "builtins".toList]
+
+/-- ExceptionInfo.from_exc_info / tbutils.format_exception_only:
+    `if type_mod not in ("__main__", "builtins"): if not isinstance(type_mod, str): type_mod = '<unknown>'; ...` -/
+def typeStr (t : ExcType) : Str :=
+  match t.modname with
+  | some m => if plainMods.contains m then t.qualname else m ++ '.' :: t.qualname
+  | none => "<unknown>".toList ++ '.' :: t.qualname
+
+/-- traceback.TracebackException.format_exception_only (CPython 3.12): `stype = self.exc_type_qualname;
+    smod = self.exc_type_module; if smod not in ("__main__", "builtins"): if not isinstance(smod, str):
+    smod = "<unknown>"; stype = smod + '.' + stype` -/
+def stdTypeStr (t : ExcType) : Str :=
+  if t.modname = some "__main__".toList ∨ t.modname = some "builtins".toList then t.qualname
+  else (match t.modname with | some m => m | none => "<unknown>".toList) ++ ['.'] ++ t.qualname
+
+/-- tbutils.print_exception without traceback = tbutils.format_exception_only = `_format_final_exc_line` -/
+def printExcOnly (etype msg : Str) : Str :=
+  if msg = [] then etype ++ ['\n'] else etype ++ (colonSp ++ msg) ++ ['\n']
+
+/-- one capture of a session: the class and `str()` of the exception -/
+abbrev Capture := ExcType × Str
+
+/-- what boltons reports for each capture of a session, in order: ExceptionInfo.exc_type,
+    get_formatted_exception_only(), what print_exception writes.  Nothing is carried from one capture to the
+    next (the code keeps no state between captures; the correspondence check replays whole sessions). -/
+def sessionB (caps : List Capture) : List (Str × Str × Str) :=
+  caps.map fun c => (typeStr c.1, eiExcOnly (typeStr c.1) c.2, printExcOnly (typeStr c.1) c.2)
+
+/-- the traceback module on the same captures -/
+def sessionS (caps : List Capture) : List (Str × Str × Str) :=
+  caps.map fun c => (stdTypeStr c.1, stdExcOnly (stdTypeStr c.1) c.2, stdExcOnly (stdTypeStr c.1) c.2)
+
 /-- the frames of `ExceptionInfo.to_dict()`: file, line number, function, `str(_DeferredLine)` -/
 def dictFrames (frames : List Callpoint) : List (Str × Nat × Str × Str) :=
   frames.map fun c => (c.path, c.lineno, c.func, rstrip c.line)
